@@ -26,6 +26,7 @@ class ARule:
     def __init__(self, row, prefix):
         self.row = row
         self.is_global = False
+        self.prio = 0
         self.cant_delete = []   # one flag per writer
         self.writers = []       # generator names, parallel to cant_delete
         self.children = []      # list[ARule]
@@ -83,6 +84,8 @@ def parse_acl(texts, prefix):
                 level.append(r)
             if _true(params.get("global")):
                 r.is_global = True
+            if "prio" in params:
+                r.prio = max(r.prio, int(params["prio"]))
             if "cant_delete" in params:
                 flags = [_true(x) for x in re.split(r"[,\t ]+", params["cant_delete"]) if x != ""]
             else:
@@ -116,7 +119,28 @@ class ALevel:
         if kinds == 0:
             return None, [], None
         if kinds > 1:
-            raise Ambiguous("row %r matched by %s" % (row, (dl, dg, rl, rg)))
+            # %prio decides which match governs; only an undecided tie would fall to the specificity heuristic
+            allm = [(r.prio, "local", r) for r in dl] + [(r.prio, "global", r) for r in dg] + [(r.prio, "reverse", r) for r in rl + rg]
+            top = max(p for p, _k, _r in allm)
+            topkinds = set(k for p, k, _r in allm if p == top)
+            if len(topkinds) != 1:
+                if topkinds == {"local", "global"}:
+                    # covered either way; only the rules for its CHILDREN depend on the heuristic
+                    return "local|global", dl + dg, _Undecided("children of %r" % row)
+                revs = [r for p, kk, r in allm if kk == "reverse" and p == top]
+                if not any(all(r.cant_delete) for r in revs):
+                    # covered and deletable whichever match governs; children (if any) are undecided
+                    return "mixed", [r for p, _k, r in allm if p == top], _Undecided("children of %r" % row)
+                raise Ambiguous("row %r matched by %s" % (row, (dl, dg, rl, rg)))
+            k = topkinds.pop()
+            if k == "global":
+                dl, rl, rg = [], [], []
+            elif k == "local":
+                dg, rl, rg = [], [], []
+            else:
+                dl, dg = [], []
+                rl = [r for p, kk, r in allm if kk == "reverse" and p == top]
+                rg = []
         if dl:
             loc, glo = [], []
             for r in dl:
@@ -126,6 +150,16 @@ class ALevel:
         if dg:
             return "global", dg, ALevel([], self.globals)
         return "reverse", rl + rg, ALevel([], self.globals)
+
+
+class _Undecided:
+    """child level that depends on annet's specificity heuristic: usable only if never consulted"""
+
+    def __init__(self, what):
+        self.what = what
+
+    def classify(self, row):
+        raise Ambiguous(self.what)
 
 
 def _uniq(rs):
